@@ -201,6 +201,43 @@ def _keep_alive(fr1, b1, cl_extra, fr2, b2, cuts, conn_hdr, http10):
     return resp2.status_code == 200 and out2.value() == b2 and conn.pos == len(m1) + len(m2)
 
 
+# ---------------------------------------------------------------- header block size cap
+_CAP = 32768
+
+
+def _header_cap(delta, nlines, lf_only):
+    """A header block of exactly cap+delta bytes (status line and fields, blank line not counted) in `nlines` filler fields."""
+    delta = realize_int(delta, -3, 3)
+    nlines = realize_int(nlines, 1, 6)
+    eol = b'\n' if lf_only else b'\r\n'
+    fixed = b'HTTP/1.1 200 OK' + eol + b'Content-Length: 2' + eol
+    total = _CAP + delta
+    room = total - len(fixed)
+    per = room // nlines
+    lines = []
+    for i in range(nlines):
+        ln = per if i < nlines - 1 else room - per * (nlines - 1)
+        name = b'X-F%d: ' % i
+        lines.append(name + b'v' * (ln - len(name) - len(eol)) + eol)
+    head = fixed[:len(b'HTTP/1.1 200 OK' + eol)] + b''.join(lines) + b'Content-Length: 2' + eol
+    if len(head) != total:
+        return False                                  # harness self-check
+    wire = head + eol + b'ab'
+    conn = FakeConnection(wire, [])
+    st = Stream(conn, keep_alive=True)
+    out = Sink()
+    try:
+        resp = run(st.read_response())
+        run(st.read_body(_GET, resp, file=out))
+    except (NetworkError, ProtocolError):
+        hit('refused')
+        return total > _CAP and conn.closed()         # only an over-size block may be refused; the connection goes with it
+    hit('accepted')
+    if total > _CAP:
+        return False                                  # the cap is a cap
+    return out.value() == b'ab' and conn.pos == len(wire) and all(resp.fields.get('X-F%d' % i) == 'v' * (len(lines[i]) - len(b'X-F0: ') - len(eol)) for i in range(nlines))
+
+
 # ---------------------------------------------------------------- --ignore-length
 def _ignore_length(framing, body, cl, cuts):
     """Stream(ignore_length=True): only Content-Length is ignored; chunked stays chunked and no-body stays no-body."""
@@ -340,6 +377,12 @@ HARNESSES = [
       doc='two exchanges in lock-step on one connection (Content-Length / chunked / bodyless 304 x keep-alive headers x HTTP/1.0|1.1): the first response '
           'consumes exactly its own bytes, the keep-alive decision equals RFC 7230 6.3, after an overrun or "close" the connection is closed, '
           'otherwise the second response (arriving only afterwards) is parsed from its first byte'),
+    H('header_cap', '_header_cap', 'delta: int, nlines: int, lf_only: bool', pre=['-3 <= delta <= 3 and 1 <= nlines <= 6'],
+      timeout={'quick': 200, 'thorough': 400}, samples=[(0, 1, False), (1, 3, True), (-3, 6, False)], need=['refused', 'accepted'],
+      funcs=['wpull/protocol/http/stream.py:Stream.read_response'],
+      doc='header block size cap (32 KiB): a block of exactly cap-3 .. cap+3 bytes spread over 1-6 fields is accepted in full (every '
+          'field value intact, body starts right after the blank line) up to the cap and refused as a protocol error - with the '
+          'connection closed - beyond it'),
     H('ignore_length', '_ignore_length', 'framing: int, body: bytes, cl: int, ' + _CUTS,
       pre={'quick': ['0 <= framing <= 2 and len(body) <= 2 and 0 <= cl <= 5 and len(cuts) <= 2'],
            'thorough': ['0 <= framing <= 2 and len(body) <= 3 and 0 <= cl <= 9 and len(cuts) <= 3']},
